@@ -52,7 +52,7 @@ func Settings() []Setting {
 	out = append(out, strSetting("ErrorStackFieldName", &zerolog.ErrorStackFieldName, `s"`))
 	out = append(out, strSetting("CallerFieldName", &zerolog.CallerFieldName, "c\xff"))
 	out = append(out, strSetting("LevelInfoValue", &zerolog.LevelInfoValue, "i\"\n"))
-	for _, v := range []string{zerolog.TimeFormatUnix, zerolog.TimeFormatUnixMs, zerolog.TimeFormatUnixMicro, zerolog.TimeFormatUnixNano, time.RFC3339Nano, "2006-01-02 15:04 é"} {
+	for _, v := range []string{zerolog.TimeFormatUnix, zerolog.TimeFormatUnixMs, zerolog.TimeFormatUnixMicro, zerolog.TimeFormatUnixNano, time.RFC3339Nano, "2006-01-02 15:04 é", time.RFC1123} {
 		out = append(out, strSetting("TimeFieldFormat", &zerolog.TimeFieldFormat, v))
 	}
 	for _, u := range []time.Duration{time.Nanosecond, time.Microsecond, time.Second, 3} {
